@@ -111,7 +111,7 @@ Proof.
     destruct (o_rx c); cbn [negb].
     2: { repeat fstrip; try (intros c0 H0; apply Hl; [refine (Hs _ c0 _ H0); reflexivity|exists []; now rewrite app_nil_r]). }
     destruct (nth_error (o_items c) (o_taken c)) as [r|].
-    + destruct (r_kind r); repeat fstrip.
+    + destruct (r_kind r); try destruct (o_kind c) as [|[|]| |]; repeat fstrip.
       all: intros c0 H0; apply Hl; [refine (Hs _ c0 _ H0); reflexivity|].
       all: first [exists []; now rewrite app_nil_r | eexists; reflexivity].
     + destruct (o_chan c); cbn [negb].
